@@ -34,6 +34,16 @@ def probe_f19(run, har):
     run.coverage["black_box_worker_thread_leg"] = "deps=msvc command reporting non-UTF-8 header names: the loop must get its result back (no hang)"
 
 
+def gen_c06(rng, **kw):
+    """scheduler scenarios (every fifth possibly cyclic), and - two in five - histories whose manifest is a step's output: the
+    Work of the regeneration phase is reused, so the traversal meets steps that are already settled"""
+    if rng.random() < 0.4:
+        import world
+        steps, invs, info = world.gen_history(rng, with_regen=True, with_pools=True, nmax=8)
+        return "\n".join(steps), [{k: v for k, v in m.items() if k != "files"} for m in invs], info
+    return gen_sched_scenario(rng, **kw)
+
+
 def main(tier, seed, replay=None):
     return sched_check(PROP, THEOREMS, tier, seed, [monitor_c06], extra_modules=["Model.All", "Proofs.SchedSpec", "Proofs.SchedInv", "Proofs.SchedLive", "Proofs.SchedRunThms"],
-                       replay=replay, probes=probe_f19, scen_gen=gen_sched_or_regen)
+                       replay=replay, probes=probe_f19, scen_gen=gen_c06)
